@@ -8,7 +8,8 @@ One case = one call of one anchored function on a generated base grid:
   sref2d     refinement.structured_refinement(g, independently refined g)  (2-d sweep; the fine grid is built by the harness)
   sref3d     refinement.structured_refinement on nested structured tetrahedral grids (oracle only)
   extrude    grid_extrusion.extrude_grid(g, z)               point / line / triangle / (perturbed) Cartesian bases, 1-4 layers up or down
-  extrude_mdg  grid_extrusion.extrude_mdg(mdg, z)            2-d Cartesian md-grids with 1-2 fractures (oracle only: per-grid maps, interface face-cell maps)
+  extrude_mdg  grid_extrusion.extrude_mdg(mdg, z)            2-d Cartesian md-grids with 1-2 fractures (interface face-cell pairs, second-side faces, mortar cells vs model)
+  srefcart1d   structured_refinement on nested uniform 1-d Cartesian grids (sweep = index formula i / r)
   extrude_err  extrude_grid with a mixed-sign z              (must raise ValueError)
 Index outputs (connectivity, cell/face maps, parent maps) are compared exactly with the Lean model
 (PorepyVerif/C23/Model.lean), coordinates with tolerance 1e-9; the oracle checks the property itself on the real code.
@@ -40,6 +41,15 @@ THEOREMS = [
     "PorepyVerif.C23.extrude_prism_measure",
     "PorepyVerif.C23.extrude_cell_map_bijective_per_layer",
     "PorepyVerif.C23.extrude_cell_over_parent",
+    "PorepyVerif.C23.cart_inside1d_iff",
+    "PorepyVerif.C23.cart_insideBox_iff",
+    "PorepyVerif.C23.structured_refinement_cartesian",
+    "PorepyVerif.C23.extrude_mdg_coupling",
+    "PorepyVerif.C23.extrude_mdg_maps",
+    "PorepyVerif.C23.vertical_face_signed_normal",
+    "PorepyVerif.C23.extrude_prism_closed_tri",
+    "PorepyVerif.C23.horizontal_face_orientation_tri",
+    "PorepyVerif.C23.faces_ordered_numbering",
 ]
 LEAN_MODULES = ["PorepyVerif.C23.Props"]
 AUDIT = "PorepyVerif/C23/Audit.lean"
@@ -55,14 +65,19 @@ RULE = ("one call per case. Base grids: 1-d line grids with 1-6 (thorough 1-12) 
         "shuffled, vertex order rotated; Cartesian 2-d grids nx x ny (1-3) with jittered nodes (convex quadrilaterals) and affine map; point grids. "
         "Refinement ratios 1-5 (1 = identity refinement), remesh node counts 2-9, extrusion layers 1-4 with unequal dyadic heights, upwards from "
         "z0 >= 0 or downwards from z0 <= 0; ~3% malformed (mixed-sign z). non-trivial = more than one base cell and (ratio > 1 | layers > 1 | "
-        "triangle refinement); distinct = distinct (kind, base grid, parameters)")
+        "triangle refinement); extruded 2-d bases are also compared face by face in their cyclic node order; distinct = distinct (kind, base grid, parameters)")
 TRUSTED = [
     "modelled, not verified: Grid.compute_geometry (C19) - the oracle evaluates measures, centres and normals of the real refined/extruded grids; "
     "the Lean theorems give the measure identities on the exact rational coordinates (Euclidean length as Real.sqrt of the squared norm)",
     "modelled, not verified: scipy csc/coo construction and Grid.cell_nodes() (columns compared as sorted node lists / sorted (face, sign) lists); "
     "np.unique first-occurrence = association-list lookup; np.sort + np.diff + np.argwhere in refine_triangle_grid = `sharedNode`",
-    "modelled, not verified: the cyclic node order of the faces of the extruded 3-d grid (is_ccw_polyline / sort_point_plane flips); faces are compared as node sets, "
-    "the orientation is checked by the oracle through compute_geometry (positive volumes, outward normals, closed cells)",
+    "modelled, not verified: in _extrude_2d the left/right decision uses the float cell centre (model: average of the cell's nodes, any interior point of a convex "
+    "cell decides alike) and sort_point_plane picks the start node of a horizontal face (faces are compared as cyclic sequences: rotation to the smallest node, "
+    "direction kept); how compute_geometry turns the node order into a normal is C19 - the oracle checks positive volumes, outward normals and closed cells on the real grid",
+    "modelled, not verified: MortarGrid construction inside extrude_mdg (the model gives the face-cell pairs, the faces on the second side and the mortar cell count; "
+    "they are compared with the face_cells matrix and primary_to_mortar_int of the real mortar grid); np.median = twiceMedian on an insertion-sorted list",
+    "structured_refinement itself asserts simplices in 2-d/3-d, so the Cartesian index-formula theorem is tied to the real code in 1-d (srefcart1d) and, for the sweep "
+    "mechanics, through the triangle cases; the 2-d/3-d box sweep is exercised only inside Lean (cartSweep)",
     "modelled, not verified: map_geometry.project_line_matrix / project_plane_matrix rotations and point_in_polygon / point_in_polyhedron inside structured_refinement; "
     "the model tests containment on exact coordinates (1-d: lo < p <= hi, 2-d: strict interior of the triangle); 3-d is checked by the oracle only",
     "modelled, not verified: np.linspace / float theta in refine_grid_1d and remesh_1d (coordinates compared to 1e-9), TensorGrid topology in remesh_1d, tag transfer in remesh_1d and _define_tags (oracle checks the domain-boundary face tags)",
@@ -75,7 +90,12 @@ EXPLANATION = ("CORE (partial): the models cover the index bookkeeping and the c
                "per parent (tri_parent_map_total), the structured sweep assigns each fine cell to the unique coarse cell containing its centre for any "
                "containment test (structured_refinement_contains), extruded measure = base measure x height for any layer sequence and the prism formulas "
                "(extrude_measure, extrude_prism_measure), the cell map is a bijection per layer and each new cell is the prism over its parent "
-               "(extrude_cell_map_bijective_per_layer, extrude_cell_over_parent). Floating point geometry (compute_geometry, rotations, point-in-polygon) is "
+               "(extrude_cell_map_bijective_per_layer, extrude_cell_over_parent); extrude_mdg: per-grid cell/face/node maps and the new interface pairs are exactly the "
+               "layer-wise copies of the old coupling, same layer on both sides, functional if the old one was, second-side faces inherited (extrude_mdg_maps, "
+               "extrude_mdg_coupling); nested Cartesian grids: the containment sweep equals the index formula (i/rx, j/ry, k/rz) (cart_inside1d_iff, cart_insideBox_iff, "
+               "structured_refinement_cartesian); cyclic node order of the extruded 3-d faces: numbering with order, sign x normal of every vertical face is the "
+               "cycle-directed outward normal for both extrusion directions, horizontal faces are oriented towards the next layer, triangular prisms are closed "
+               "(faces_ordered_numbering, vertical_face_signed_normal, horizontal_face_orientation_tri, extrude_prism_closed_tri). Floating point geometry (compute_geometry, rotations, point-in-polygon) is "
                "outside the theorems and bridged by the correspondence check and the oracle.")
 ASSUMPTIONS = [
     "1-d base grids are straight (all nodes collinear) and, for remesh_1d, connected; base grids for extrusion lie in a plane z = const",
@@ -290,6 +310,9 @@ def gen_case(rng, tier):
         return {"kind": "sref3d", "n": rng.choice([[1, 1, 1], [2, 1, 1], [1, 2, 1]]), "factor": 2}
     if u < 0.72:
         return dict(rng.choice(MDG_SHAPES), kind="extrude_mdg", z=_gen_z(rng))
+    if u < 0.75:
+        return {"kind": "srefcart1d", "n": rng.randint(1, 6), "ratio": rng.choice([2, 3, 4, 5]), "x0": frac(_dy(rng, -4, 4)),
+                "h": frac(Fr(rng.randint(1, 12), rng.choice([1, 2, 4])))}
     if u < 0.97:
         v = rng.random()
         if v < 0.12:
@@ -392,6 +415,36 @@ def _sref2d_grids(case):
     return g, h, pts, tris, [i // 4 for i in order]
 
 
+def _srefcart_grids(case):
+    import porepy as pp
+
+    n, r, x0, hh = case["n"], case["ratio"], float(Fr(case["x0"])), float(Fr(case["h"]))
+    g = pp.CartGrid([n], [n * hh])
+    h = pp.CartGrid([n * r], [n * hh])
+    for q in (g, h):
+        q.nodes[0] += x0
+        q.compute_geometry()
+    return g, h
+
+
+def _mdg_interfaces(mdg, new, gmap):
+    """(old interface, its data, the matching new interface) in the order of the old md-grid."""
+    out = []
+    for intf, data in mdg.interfaces(return_data=True):
+        hi, lo = mdg.interface_to_subdomain_pair(intf)
+        pair = (gmap[hi].grid, gmap[lo].grid)
+        cand = [i for i in new.interfaces() if new.interface_to_subdomain_pair(i) == pair]
+        out.append((intf, data, cand[0] if len(cand) == 1 else None, hi, lo))
+    return out
+
+
+def _cyc(nodes):
+    """canonical rotation of a cyclic node sequence: smallest node first, direction kept"""
+    nodes = [int(v) for v in nodes]
+    i = nodes.index(min(nodes))
+    return nodes[i:] + nodes[:i]
+
+
 def _sref3d_grids(case):
     import porepy as pp
 
@@ -442,13 +495,30 @@ def impl_run(case):
 
             mdg = _build_mdg(case)
             new, gmap = extrude_mdg(mdg, np.array([float(Fr(v)) for v in case["z"]]))
-            return {"cells": sorted([int(gmap[sd].grid.dim), int(gmap[sd].grid.num_cells)] for sd in mdg.subdomains())}
+            from porepy.numerics.linalg.matrix_operations import sparse_array_to_row_col_data
+
+            intfs = []
+            for intf, data, mg, hi, lo in _mdg_interfaces(mdg, new, gmap):
+                r2, c2, _ = sparse_array_to_row_col_data(new.interface_data(mg)["face_cells"])
+                per_side = mg.num_cells // mg.num_sides()
+                proj = mg.primary_to_mortar_int().tocsr()
+                other = sorted(int(v) for v in proj[per_side:].indices) if mg.num_sides() == 2 else []
+                intfs.append({"pairs": sorted([int(a), int(b)] for a, b in zip(r2, c2)), "other_side": other,
+                              "sides": int(mg.num_sides()), "mortar_cells": int(mg.num_cells)})
+            return {"cells": sorted([int(gmap[sd].grid.dim), int(gmap[sd].grid.num_cells)] for sd in mdg.subdomains()), "interfaces": intfs}
+        if k == "srefcart1d":
+            g, h = _srefcart_grids(case)
+            m = refinement.structured_refinement(g, h)
+            return {"cols": [sorted(c) for c in _cols(m)], "shape": [int(v) for v in m.shape]}
         if k in ("extrude", "extrude_err"):
             g = build_base(case["base"])
             z = np.array([float(Fr(v)) for v in case["z"]])
             h, cm, fm = extrude_grid(g, z)
-            return {"nodes": _nodes_out(h), "fn": [sorted(c) for c in _cols(h.face_nodes)], "cf": _cols_signed(h.cell_faces),
-                    "cell_map": [[int(v) for v in row] for row in cm], "face_map": [[int(v) for v in row] for row in fm]}
+            out = {"nodes": _nodes_out(h), "fn": [sorted(c) for c in _cols(h.face_nodes)], "cf": _cols_signed(h.cell_faces),
+                   "cell_map": [[int(v) for v in row] for row in cm], "face_map": [[int(v) for v in row] for row in fm]}
+            if g.dim == 2:  # cyclic node order of the 3-d faces (stored order of the csc columns)
+                out["fn_cyclic"] = [_cyc(c) for c in _cols(h.face_nodes)]
+            return out
     except Exception as e:
         return err_kind(e)
     raise ValueError(k)
@@ -494,8 +564,21 @@ def model_ops(case):
             cells.append([frac(v) for n in sorted(t) for v in coarse[n]])
         cen = [[frac(sum(pts[v][0] for v in t) / 3), frac(sum(pts[v][1] for v in t) / 3)] for t in tris]
         return [{"op": "sref2d", "cells": cells, "pts": cen}]
-    if k in ("sref3d", "extrude_mdg"):
+    if k == "sref3d":
         return [{"op": "echo"}]
+    if k == "srefcart1d":
+        return [{"op": "srefcart", "o": [case["x0"], "0", "0"], "h": [case["h"], "1", "1"], "n": [case["n"], 1, 1], "r": [case["ratio"], 1, 1]}]
+    if k == "extrude_mdg":
+        from porepy.numerics.linalg.matrix_operations import sparse_array_to_row_col_data
+
+        mdg = _build_mdg(case)
+        ops = []
+        for intf, data in mdg.interfaces(return_data=True):
+            hi, lo = mdg.interface_to_subdomain_pair(intf)
+            cells, faces, _ = sparse_array_to_row_col_data(data["face_cells"])
+            ops.append({"op": "mdg_interface", "cells": [int(v) for v in cells], "faces": [int(v) for v in faces],
+                        "nc_low": int(lo.num_cells), "nf_high": int(hi.num_faces), "layers": len(case["z"]) - 1})
+        return ops
     if k in ("extrude", "extrude_err"):
         g = build_base(b)
         if g.dim == 0:
@@ -532,28 +615,23 @@ def model_decode(outs, case):
         nc = 6 * n[0] * n[1] * n[2]
         return {"shape": [nc * case["factor"] ** 3, nc]}
     if k == "extrude_mdg":
-        mdg = _build_mdg(case)  # cell counts by the layer formula (cells x layers); everything else is the oracle's job
-        return {"cells": sorted([int(sd.dim) + 1, int(sd.num_cells) * (len(case["z"]) - 1)] for sd in mdg.subdomains())}
+        mdg = _build_mdg(case)  # cell counts by the layer formula (cells x layers)
+        intfs = [{"pairs": sorted(q["pairs"]), "other_side": sorted(q["other_side"]), "sides": q["sides"], "mortar_cells": q["mortar_cells"]} for q in outs]
+        return {"cells": sorted([int(sd.dim) + 1, int(sd.num_cells) * (len(case["z"]) - 1)] for sd in mdg.subdomains()), "interfaces": intfs}
+    if k == "srefcart1d":
+        npts = sum(len(c) for c in o["cols"])
+        return {"cols": [sorted(c) for c in o["cols"]], "shape": [npts, len(o["cols"])]}
     if k in ("extrude", "extrude_err"):
         out = {"nodes": o["nodes"], "fn": [sorted(f) for f in o["fn"]], "cf": [sorted(c) for c in o["cf"]],
                "cell_map": o["cell_map"], "face_map": o["face_map"]}
-        if case["base"]["type"] in ("line", "frac"):
-            # sign convention of _extrude_1d at the pinned commit: (-1, +1) by stored position (see compare)
-            out["_cf_positional"] = [sorted([[c[0][0], -1], [c[1][0], 1]] + c[2:]) for c in o["cf"]]
+        if o.get("fn_ord") is not None:
+            out["fn_cyclic"] = [_cyc(f) for f in o["fn_ord"]]
         return out
     raise ValueError(k)
 
 
 def compare(impl, model, case):
-    """Exact on indices, 1e-9 on coordinates. For extruded line grids two sign conventions of the vertical faces are accepted:
-    inherited from the base grid (model = repaired code, as in _extrude_2d) or positional (-1, +1) (pinned code); both give
-    the same grid when the base stores every cell's faces as (-1, +1), consistency is the oracle's job (_valid_grid)."""
-    if isinstance(model, dict) and "_cf_positional" in model:
-        model = dict(model)
-        alt = dict(model, cf=model.pop("_cf_positional"))
-        alt.pop("_cf_positional", None)
-        d = deep_compare(impl, model, tol=TOL)
-        return d if d and deep_compare(impl, alt, tol=TOL) else None
+    """Exact on indices, 1e-9 on coordinates."""
     return deep_compare(impl, model, tol=TOL)
 
 
@@ -780,6 +858,8 @@ def _oracle_sref(case):
         h = _call(refinement.refine_grid_1d, g, case["ratio"])
     elif k == "sref2d":
         g, h, _, _, true_parent = _sref2d_grids(case)
+    elif k == "srefcart1d":
+        g, h = _srefcart_grids(case)
     else:
         g, h = _sref3d_grids(case)
     m = _call(refinement.structured_refinement, g, h)
@@ -815,6 +895,8 @@ def _oracle_sref(case):
             return _fail(case, "not-unique", f"centre of fine cell {i} also lies in coarse cells {others}")
         if k == "sref2d" and c != true_parent[i]:
             return _fail(case, "not-containing", f"fine cell {i} is a child of coarse cell {true_parent[i]} but mapped to {c}")
+        if k == "srefcart1d" and c != i // case["ratio"]:
+            return _fail(case, "index-formula", f"fine cell {i} is mapped to coarse cell {c}, index formula gives {i // case['ratio']}")
         if k == "sref1d" and c != i // case["ratio"]:
             return _fail(case, "not-containing", f"fine cell {i} is a child of coarse cell {i // case['ratio']} but mapped to {c}")
     return None
@@ -994,7 +1076,7 @@ def _oracle(case):
         return _oracle_remesh1d(case)
     if k == "tri":
         return _oracle_tri(case)
-    if k in ("sref1d", "sref2d", "sref3d"):
+    if k in ("sref1d", "sref2d", "sref3d", "srefcart1d"):
         return _oracle_sref(case)
     if k == "extrude":
         return _oracle_extrude(case)
@@ -1024,7 +1106,7 @@ def _ncells(base):
 
 def nontrivial(case):
     k = case["kind"]
-    if k in ("extrude_err", "sref3d", "extrude_mdg"):
+    if k in ("extrude_err", "sref3d", "extrude_mdg", "srefcart1d"):
         return k != "extrude_err"
     many = _ncells(case["base"]) > 1
     if k in ("refine1d", "sref1d"):
